@@ -2577,6 +2577,38 @@ def operations_model(P, R, which=None):
                                 zip(tt[g], tt[u], tt[v]))
                             check((f, 'ite'), f'order {order}: ite({g}, '
                                   f'{u}, {v})', obj, ext, names, out, want)
+            if 'ite' in which:
+                # the variable of a name, and conjunctions of literals
+                rows = list(itertools.product((False, True), repeat=3))
+                f = P.func('dd.bdd.BDD.var')
+                for x in names:
+                    obj = fresh(base)
+                    out, _ = call(f, obj, [x])
+                    check((f, 'var'), f'order {order}: var({x!r})', obj,
+                          ext, names, out,
+                          tuple(r[names.index(x)] for r in rows))
+                f = P.func('dd.bdd.BDD.cube')
+                for k in range(4):
+                    for xs in itertools.combinations(names, k):
+                        for bits in itertools.product(
+                                (False, True), repeat=k):
+                            d = dict(zip(xs, bits))
+                            want = tuple(all(
+                                r[names.index(x)] == b
+                                for x, b in d.items()) for r in rows)
+                            obj = fresh(base)
+                            out, _ = call(f, obj, [dict(d)])
+                            check((f, 'cube'), f'order {order}: cube({d})',
+                                  obj, ext, names, out, want)
+                    for xs in itertools.permutations(names, k):
+                        # names alone: all of them true
+                        obj = fresh(base)
+                        out, _ = call(f, obj, [list(xs)])
+                        want = tuple(all(r[names.index(x)] for x in xs)
+                                     for r in rows)
+                        check((f, 'cube'), f'order {order}: '
+                              f'cube({list(xs)})', obj, ext, names, out,
+                              want)
             if 'quantify' in which:
                 f = P.func('dd.bdd.BDD.quantify')
                 rows = list(itertools.product((False, True), repeat=3))
@@ -2767,7 +2799,8 @@ def operations_model(P, R, which=None):
         R.undecided('R-OPTAB', 'dd.bdd.BDD (operations)',
                     'operations model', str(e))
         return None
-    rule_of = {'ite': 'R-OPTAB', 'quantify': 'R-ARGS', 'compose': 'R-ROLE',
+    rule_of = {'ite': 'R-OPTAB', 'var': 'R-OPTAB', 'cube': 'R-OPTAB',
+               'quantify': 'R-ARGS', 'compose': 'R-ROLE',
                'cofactor': 'R-ROLE', 'rename': 'R-ROLE', 'image': 'R-REBUILD',
                'preimage': 'R-REBUILD'}
     for (f, op, sub), msg in sorted(problems.items(),
@@ -4262,6 +4295,445 @@ def r_collect(P, R):
     if n is not None:
         R.floor('R-PAIR calls of the collection model', n, 60)
 r_collect.NAME = 'R-PAIR(collection model)'
+
+
+def _eval_formula(text, val):
+    """Value of a formula of the documented Boolean syntax (doc.md:
+    precedence `<=>` < `=>` < `#`,`^` < `\\/`,`|` < `/\\`,`&` < `~`,`!`;
+    `ite(a, b, c)`; TRUE / FALSE; names) under the assignment `val`.
+    Raises ValueError on anything else."""
+    import re
+    toks = re.findall(
+        r"<=>|<->|=>|->|\\/|/\\|\|\||&&|[()~!,#^|&]|[A-Za-z_][A-Za-z0-9_.']*",
+        text)
+    if ''.join(toks) != re.sub(r'\s+', '', text):
+        raise ValueError(text)
+    pos = [0]
+    levels = [({'<=>', '<->'}, lambda a, b: a == b),
+              ({'=>', '->'}, lambda a, b: (not a) or b),
+              ({'#', '^'}, lambda a, b: a != b),
+              ({'\\/', '|', '||'}, lambda a, b: a or b),
+              ({'/\\', '&', '&&'}, lambda a, b: a and b)]
+
+    def peek():
+        return toks[pos[0]] if pos[0] < len(toks) else None
+
+    def take(t=None):
+        x = peek()
+        if x is None or (t is not None and x != t):
+            raise ValueError(text)
+        pos[0] += 1
+        return x
+
+    def binary(k):
+        if k == len(levels):
+            return unary()
+        ops, fn = levels[k]
+        a = binary(k + 1)
+        while peek() in ops:
+            take()
+            b = binary(k + 1)
+            a = bool(fn(a, b))
+        return a
+
+    def unary():
+        if peek() in ('~', '!'):
+            take()
+            return not unary()
+        return atom()
+
+    def atom():
+        t = take()
+        if t == '(':
+            a = binary(0)
+            take(')')
+            return a
+        if t == 'ite' and peek() == '(':
+            take('(')
+            a = binary(0)
+            take(',')
+            b = binary(0)
+            take(',')
+            c = binary(0)
+            take(')')
+            return b if a else c
+        if t.upper() == 'TRUE':
+            return True
+        if t.upper() == 'FALSE':
+            return False
+        if t in val:
+            return bool(val[t])
+        raise ValueError(text)
+    out = binary(0)
+    if peek() is not None:
+        raise ValueError(text)
+    return out
+
+
+def to_expr_model(P, R):
+    """`BDD.to_expr` interpreted for every reference of two managers and
+    its output read back by an evaluator of the documented syntax (doc.md)
+    written for this purpose: under every assignment the formula has the
+    value of the reference (C05: `to_expr` gives a formula of the function,
+    in the syntax `add_expr` documents)."""
+    import itertools
+    f = P.func('dd.bdd.BDD.to_expr')
+    stubs = ClassStubs(P, 'dd.bdd.BDD')
+    resolver = interp.ModuleEnv(P, 'dd.bdd', stubs)
+    names = ['a', 'b', 'c']
+    rows = list(itertools.product((False, True), repeat=3))
+    tts = [tuple(bool(a and not b) for a, b, c in rows),
+           tuple(bool(b if a else c) for a, b, c in rows),
+           tuple(bool(a != c) for a, b, c in rows),
+           tuple(bool(c) for a, b, c in rows),
+           tuple(bool((a or b) and c) for a, b, c in rows)]
+    prm = [p for p in f.params if p != 'self']
+    problems = dict()
+    n = 0
+    try:
+        for order in (['a', 'b', 'c'], ['c', 'a', 'b']):
+            base, ext = _build_manager(order, tts, range(len(tts)))
+            for u0 in sorted(base['self._succ']):
+                for u in (u0, -u0):
+                    n += 1
+                    obj = _object_manager(copy.deepcopy(
+                        {k: v for k, v in base.items() if k != 'self'}))
+                    out, _ = interp.run_function(
+                        f.node, {'self': obj, prm[0]: u}, stubs, resolver)
+                    what = (f'order {order}, nodes {base["self._succ"]}: '
+                            f'to_expr({u})')
+                    if out[0] != 'return' or not isinstance(out[1], str):
+                        problems.setdefault('raises', (
+                            f'{what}: {out[0]} {out[1]!r}'))
+                        continue
+                    want = _tt_of(base, u, names)
+                    try:
+                        got = tuple(_eval_formula(
+                            out[1], dict(zip(names, r))) for r in rows)
+                    except ValueError:
+                        problems.setdefault('syntax', (
+                            f'{what} gives {out[1]!r}, which is not a '
+                            'formula of the documented syntax over the '
+                            'declared variables'))
+                        continue
+                    if got != want:
+                        problems.setdefault('wrong-function', (
+                            f'{what} gives {out[1]!r}, which has the '
+                            'values ' + ''.join(
+                                '1' if b else '0' for b in got)
+                            + ' where the reference has ' + ''.join(
+                                '1' if b else '0' for b in want)
+                            + f' (rows in the order of {names})'))
+    except (interp.Unknown, KeyError) as e:
+        R.undecided('R-FORMAT', f.qualname, 'formula model', str(e))
+        return None
+    for sub, msg in sorted(problems.items()):
+        R.violation('R-FORMAT', f'to_expr-{sub}', f.qualname, 'to_expr',
+                    msg, unit=f.unit.rel, line=f.lineno)
+    if not problems:
+        R.holds('R-FORMAT', f.qualname,
+                f'formula model ({n} references): the text is a formula '
+                'of the documented syntax with the values of the '
+                'reference under every assignment')
+    return n
+
+
+def r_to_expr(P, R):
+    n = to_expr_model(P, R)
+    if n is not None:
+        R.floor('R-FORMAT references of the formula model', n, 20)
+r_to_expr.NAME = 'R-FORMAT(to_expr model)'
+
+
+_GRAPH_MODEL = '''
+class MultiDiGraph:
+    def __init__(self):
+        self.nodes = {}
+        self.edges = []
+    def add_node(self, u, **attrs):
+        self.nodes.setdefault(u, {}).update(attrs)
+    def add_nodes_from(self, us, **attrs):
+        for u in us:
+            if isinstance(u, tuple):
+                self.add_node(u[0], **dict(attrs, **u[1]))
+            else:
+                self.add_node(u, **attrs)
+    def add_edge(self, u, v, key=None, **attrs):
+        self.nodes.setdefault(u, {})
+        self.nodes.setdefault(v, {})
+        self.edges.append((u, v, dict(attrs)))
+    def add_edges_from(self, es, **attrs):
+        for e in es:
+            d = dict(attrs)
+            if len(e) > 2:
+                d.update(e[-1])
+            self.add_edge(e[0], e[1], **d)
+    def __contains__(self, u):
+        return u in self.nodes
+    def __len__(self):
+        return len(self.nodes)
+    def __iter__(self):
+        return iter(self.nodes)
+    def has_node(self, u):
+        return u in self.nodes
+'''
+
+
+def to_nx_model(P, R):
+    """`dd.bdd.to_nx(bdd, roots)` interpreted against a model of the graph
+    class it fills (nodes with attributes, a list of attributed edges).
+    C18: the graph holds exactly the nodes below the roots, each with its
+    level; every node that is not the terminal has a `value=False` and a
+    `value=True` successor and nothing else; walking the graph from a root
+    with the complement marks gives the function of the root.  (An edge
+    recorded twice - the function does that for nodes shared by two roots
+    - is not held against it.)"""
+    import itertools
+    f = P.func('dd.bdd.to_nx')
+    gcls = ('class', ast.parse(_GRAPH_MODEL).body[0], None, dict())
+    lib = interp.Sym('networkx', {'MultiDiGraph': gcls,
+                                  'DiGraph': gcls})
+    stubs = ClassStubs(P, 'dd.bdd.BDD', extra={
+        'import_module': lambda m, c, a, k: lib})
+    resolver = interp.ModuleEnv(P, 'dd.bdd', stubs)
+    names = ['a', 'b', 'c']
+    rows = list(itertools.product((False, True), repeat=3))
+    tts = [tuple(bool(a and not b) for a, b, c in rows),
+           tuple(bool(b if a else c) for a, b, c in rows),
+           tuple(bool(a != c) for a, b, c in rows)]
+    ps = list(f.params)
+    problems = dict()
+    n = 0
+    try:
+        for order in (['a', 'b', 'c'], ['b', 'c', 'a']):
+            base, ext = _build_manager(order, tts, range(len(tts)))
+            rs = sorted(ext)
+            succ = base['self._succ']
+            for roots in ([rs[0]], [rs[0], -rs[1]], [rs[2], -rs[2]],
+                          [-rs[1]], [1], [rs[1], rs[2], rs[0]]):
+                n += 1
+                obj = _object_manager(copy.deepcopy(
+                    {k: v for k, v in base.items() if k != 'self'}))
+                out, _ = interp.run_function(
+                    f.node, {ps[0]: obj, ps[1]: list(roots)}, stubs,
+                    resolver)
+                what = f'order {order}, nodes {succ}: to_nx(roots={roots})'
+                g = out[1]
+                if out[0] != 'return' or not isinstance(g, interp.Sym) \
+                        or not g.attrs or 'nodes' not in g.attrs:
+                    problems.setdefault('raises', (
+                        f'{what}: {out[0]} {out[1]!r}'))
+                    continue
+                nodes, edges = g.attrs['nodes'], g.attrs['edges']
+                reach, todo = set(), [abs(r) for r in roots]
+                while todo:
+                    x = todo.pop()
+                    if x in reach:
+                        continue
+                    reach.add(x)
+                    if x != 1:
+                        todo += [abs(succ[x][1]), abs(succ[x][2])]
+                if set(nodes) != reach:
+                    problems.setdefault('nodes', (
+                        f'{what}: the graph has the nodes '
+                        f'{sorted(nodes)}; below the roots are '
+                        f'{sorted(reach)}'))
+                    continue
+                bad = [u for u in nodes
+                       if nodes[u].get('level') != succ[u][0]]
+                if bad:
+                    problems.setdefault('level', (
+                        f'{what}: node {bad[0]} is labelled '
+                        f'{nodes[bad[0]]}, its level is '
+                        f'{succ[bad[0]][0]}'))
+                    continue
+                arcs = dict()
+                for u, v, d in edges:
+                    arcs.setdefault(u, set()).add(
+                        (v, d.get('value'), bool(d.get('complement'))))
+                shape = None
+                for u in nodes:
+                    have = sorted(arcs.get(u, ()), key=repr)
+                    if u == 1:
+                        if have:
+                            shape = f'the terminal has the arcs {have}'
+                    elif sorted(x[1] for x in have) != [False, True] or \
+                            any(x[1] not in (False, True) or
+                                isinstance(x[1], int) and
+                                not isinstance(x[1], bool) for x in have):
+                        shape = (f'node {u} has the arcs {have}: not one '
+                                 'with value=False and one with value=True')
+                if shape:
+                    problems.setdefault('arcs', f'{what}: {shape}')
+                    continue
+                by_level = {k: v for k, v in enumerate(order)}
+
+                def walk(u, r):
+                    neg = False
+                    while u != 1:
+                        bit = r[names.index(by_level[nodes[u]['level']])]
+                        v, _, c = next(x for x in arcs[u] if x[1] is bit)
+                        neg ^= c
+                        u = v
+                    return not neg
+                for r_ in roots:
+                    got = tuple(walk(abs(r_), r) for r in rows)
+                    if got != _tt_of(base, abs(r_), names):
+                        problems.setdefault('function', (
+                            f'{what}: walking the graph from node '
+                            f'{abs(r_)} with its then / else arcs and '
+                            'complement marks does not give the function '
+                            f'of the node (arcs {arcs})'))
+                        break
+    except (interp.Unknown, KeyError, StopIteration) as e:
+        R.undecided('R-ROLE', f.qualname, 'graph model', str(e))
+        return None
+    for sub, msg in sorted(problems.items()):
+        R.violation('R-ROLE', f'to_nx-{sub}', f.qualname, 'to_nx', msg,
+                    unit=f.unit.rel, line=f.lineno)
+    if not problems:
+        R.holds('R-ROLE', f.qualname,
+                f'graph model ({n} exports): nodes below the roots with '
+                'their levels, one else and one then arc each, the '
+                'function recovered by walking the graph')
+    return n
+
+
+def r_to_nx(P, R):
+    n = to_nx_model(P, R)
+    if n is not None:
+        R.floor('R-ROLE exports of the graph model', n, 10)
+r_to_nx.NAME = 'R-ROLE(to_nx model)'
+
+
+def mdd_collect_model(P, R):
+    """`MDD.collect_garbage` interpreted on a small multi-valued diagram
+    for every choice of which of its top nodes are referenced from
+    outside.  C15: exactly the nodes no reference reaches go; the tables
+    stay inverse of each other; every count is the number of stored edges
+    plus the outside references; the numbers of the freed nodes are free;
+    the values of the referenced nodes are what they were; the memo is
+    emptied."""
+    import itertools
+    f = P.func('dd.mdd.MDD.collect_garbage')
+    stubs = ClassStubs(P, 'dd.mdd.MDD')
+    resolver = interp.ModuleEnv(P, 'dd.mdd', stubs)
+    dvars = {'x': {'level': 0, 'len': 3}, 'y': {'level': 1, 'len': 2}}
+    succ = {1: (2, None), 2: (1, 1, -1), 3: (0, 2, 1, -2),
+            4: (0, 1, -1, -1), 5: (0, 2, -2, 1), 6: (1, -1, 1)}
+    # (node 6 is referenced by nobody; 2 by 3, 5; the tops are 3, 4, 5, 6)
+    tops = [3, 4, 5, 6]
+    points = list(itertools.product(range(3), range(2)))
+
+    def value(table, u, pt):
+        neg = False
+        while abs(u) != 1:
+            if u < 0:
+                neg = not neg
+            t = table[abs(u)]
+            u = t[1 + pt[t[0]]]
+        return (u > 0) != neg
+    prm = [p for p in f.params if p != 'self']
+    problems = dict()
+    n = 0
+    try:
+        for k in range(len(tops) + 1):
+            for kept in itertools.combinations(tops, k):
+                ref = {u: 0 for u in succ}
+                for u, t in succ.items():
+                    for x in t[1:]:
+                        if x is not None:
+                            ref[abs(x)] += 1
+                for u in kept:
+                    ref[u] += 1
+                live, todo = {1}, list(kept)
+                while todo:
+                    x = todo.pop()
+                    if x in live:
+                        continue
+                    live.add(x)
+                    todo += [abs(y) for y in succ[x][1:]]
+                for roots in (None, [u for u in tops if u not in kept]):
+                    n += 1
+                    obj = interp.Sym('mdd', {
+                        'vars': copy.deepcopy(dvars),
+                        '_level_to_var': None, '_succ': dict(succ),
+                        '_pred': {t: u for u, t in succ.items()},
+                        '_ref': dict(ref), '_max': 6, '_free': set(),
+                        '_ite_table': {(3, 1, -1): 3},
+                        'max_nodes': 1000})
+                    out, _ = interp.run_function(
+                        f.node, {'self': obj, prm[0]: (
+                            list(roots) if roots is not None else None)},
+                        stubs, resolver)
+                    what = (f'nodes {succ}, referenced {list(kept)}: '
+                            f'collect_garbage({roots})')
+                    if out[0] == 'raise':
+                        problems.setdefault('raises', (
+                            f'{what}: raises {out[1]}'))
+                        continue
+                    a = obj.attrs
+                    if set(a['_succ']) != live:
+                        problems.setdefault('nodes', (
+                            f'{what}: the nodes {sorted(a["_succ"])} '
+                            f'stay; referenced or below a referenced '
+                            f'node are {sorted(live)}'))
+                        continue
+                    if a['_pred'] != {t: u for u, t in a['_succ'].items()}:
+                        problems.setdefault('tables', (
+                            f'{what}: the unique table {a["_pred"]} is '
+                            f'not the inverse of {a["_succ"]}'))
+                        continue
+                    want = {u: 0 for u in a['_succ']}
+                    for u, t in a['_succ'].items():
+                        for x in t[1:]:
+                            if x is not None:
+                                want[abs(x)] += 1
+                    for u in kept:
+                        want[u] += 1
+                    if a['_ref'] != want:
+                        problems.setdefault('counts', (
+                            f'{what}: the counts are {a["_ref"]}, the '
+                            f'stored edges and outside references give '
+                            f'{want}'))
+                        continue
+                    if not set(succ) - live <= set(a['_free']) or \
+                            set(a['_free']) & live:
+                        problems.setdefault('free', (
+                            f'{what}: the free numbers are '
+                            f'{sorted(a["_free"])}; freed were '
+                            f'{sorted(set(succ) - live)}'))
+                        continue
+                    if a['_ite_table']:
+                        problems.setdefault('memo', (
+                            f'{what}: the memo still holds '
+                            f'{a["_ite_table"]}'))
+                    for u in kept:
+                        if any(value(a['_succ'], u, p) != value(succ, u, p)
+                               for p in points):
+                            problems.setdefault('function', (
+                                f'{what}: the referenced node {u} does '
+                                'not have the values it had'))
+    except (interp.Unknown, KeyError) as e:
+        R.undecided('R-PAIR', f.qualname, 'collection model', str(e))
+        return None
+    for sub, msg in sorted(problems.items()):
+        R.violation('R-PAIR', f'mdd-collect-{sub}', f.qualname,
+                    'collect_garbage', msg, unit=f.unit.rel,
+                    line=f.lineno)
+    if not problems:
+        R.holds('R-PAIR', f.qualname,
+                f'collection model ({n} calls): exactly the unreferenced '
+                'nodes go, tables inverse, counts exact, freed numbers '
+                'free, memo emptied')
+    return n
+
+
+def r_mdd_collect(P, R):
+    n = mdd_collect_model(P, R)
+    if n is not None:
+        R.floor('R-PAIR calls of the MDD collection model', n, 20)
+r_mdd_collect.NAME = 'R-PAIR(MDD collection model)'
 
 
 def dot_model(P, R):
